@@ -350,31 +350,43 @@ theorem gen_append_order :
 
 /-! ### the PREF64 lifetime -/
 
-/-- for every accepted `max_interval` the PREF64 lifetime is 3·MaxRtrAdvInterval (whole
-    seconds) rounded up to a multiple of 8 s; at most 5400 s, so the 65528 s cap is never
-    reached -/
+/-- for every accepted `max_interval` the PREF64 lifetime is 3·MaxRtrAdvInterval rounded up to a
+    multiple of 8 s; at most 5400 s, so the 65528 s cap is never reached -/
 theorem pref64_lifetime_formula (maxI : Dur) (h4 : 4 * second ≤ maxI) (h1800 : maxI ≤ 1800 * second) :
-    Spec.C02.pref64Lifetime maxI = Spec.C02.ceil8 (3 * (maxI / second)) * second ∧
+    Spec.C02.pref64Lifetime maxI = Spec.C02.ceil8s (3 * maxI) ∧
     Spec.C02.pref64Lifetime maxI ≤ 5400 * second ∧
     Spec.C02.pref64Lifetime maxI % (8 * second) = 0 := by
-  unfold Spec.C02.pref64Lifetime Spec.C02.ceil8 second at *
+  unfold Spec.C02.pref64Lifetime Spec.C02.ceil8s second at *
   omega
 
 theorem pref64_cap (maxI : Dur) (_h : 0 ≤ maxI) : Spec.C02.pref64Lifetime maxI ≤ 65528 * second := by
   unfold Spec.C02.pref64Lifetime
   omega
 
+/-- never less than 3·MaxRtrAdvInterval (also for a fractional interval), and less than 8 s above -/
 theorem pref64_lifetime_ge (maxI : Dur) (h4 : 4 * second ≤ maxI) (h1800 : maxI ≤ 1800 * second) :
-    3 * (maxI / second) * second ≤ Spec.C02.pref64Lifetime maxI ∧
-    Spec.C02.pref64Lifetime maxI < (3 * (maxI / second) + 8) * second := by
-  unfold Spec.C02.pref64Lifetime Spec.C02.ceil8 second at *
+    3 * maxI ≤ Spec.C02.pref64Lifetime maxI ∧
+    Spec.C02.pref64Lifetime maxI < 3 * maxI + 8 * second := by
+  unfold Spec.C02.pref64Lifetime Spec.C02.ceil8s second at *
+  omega
+
+/-- for a whole number of seconds this is `ceil8 (3·seconds)` seconds -/
+theorem pref64_lifetime_whole_seconds (s : Int) (h4 : 4 ≤ s) (h1800 : s ≤ 1800) :
+    Spec.C02.pref64Lifetime (s * second) = Spec.C02.ceil8 (3 * s) * second := by
+  unfold Spec.C02.pref64Lifetime Spec.C02.ceil8s Spec.C02.ceil8 second
   omega
 
 /-- the value the Go constructor computes is the documented one -/
 theorem pref64_model_formula (maxI : Dur) (h4 : 4 * second ≤ maxI) (h1800 : maxI ≤ 1800 * second) :
-    Model.pref64Lifetime maxI = Spec.C02.ceil8 (3 * (maxI / second)) * second := by
+    Model.pref64Lifetime maxI = Spec.C02.ceil8s (3 * maxI) := by
   rw [Props.C02.pref64_lifetime_eq maxI (by unfold second at h4; omega)]
   exact (pref64_lifetime_formula maxI h4 h1800).1
+
+/-- F-20: what the pinned source computed (whole seconds first) falls short of 3·max for a
+    fractional interval: 16 s for `max_interval = 5.5 s`, where 24 s is called for. -/
+example : Model.pref64LifetimeWholeSeconds (5500 * ms) = 16 * second ∧
+    Spec.C02.pref64Lifetime (5500 * ms) = 24 * second ∧ Model.pref64LifetimeDur (5500 * ms) = 24 * second := by
+  decide
 
 /-! ### when generation fails -/
 
